@@ -127,7 +127,8 @@ def run_vlex(prop, tier, plan, ev, findings):
         failed = set()
         for f in r.get('failures', []):
             key = f.get('fn') or '?'
-            name = '%s::%s::%s' % (tag, key, f.get('clause') or f['message'])
+            where = (' at `%s`' % f['code'][0][:60]) if (not f.get('clause') and f.get('code')) else ''
+            name = '%s::%s::%s%s' % (tag, key, f.get('clause') or f['message'], where)
             failed.add(name)
             findings.append(dict(kind='verus', obligation=name, fn=key, clause=f.get('clause'), message=f['message'], src=f.get('code'),
                                  rendered=f.get('rendered'), unit=tag, cfg=dict(codegen=r['codegen']), twin=None,
